@@ -464,6 +464,7 @@ func (s *TranslateFile) replicate(ctx context.Context) error {
 		// error to the empty channel with a buffer of 1, the goroutine
 		// terminates, and chErr becomes garbage-collectable.
 		go func() {
+			verifTranslateReplGate(s)
 			s.mu.Lock()
 			defer s.mu.Unlock()
 			// Write to local store.
